@@ -139,17 +139,17 @@ fn attempt(case: &Case, w: usize, timeout_ms: u64) -> Result<(bool, CaseInfo, Va
 }
 
 pub fn check(case: &Case, w: usize) -> CheckResult {
-    let (suspect, info, obs) = attempt(case, w, 30_000)?;
+    let (suspect, info, obs) = attempt(case, w, 20_000)?;
     if !suspect {
         return Ok(info);
     }
     // confirmation with a doubled limit: a serialising scheduler blocks forever, a
     // correct one needs milliseconds
-    let (again, _info2, obs2) = attempt(case, w, 60_000)?;
+    let (again, _info2, obs2) = attempt(case, w, 40_000)?;
     if again {
         return viol_obs(
             "c16.rendezvous.timeout",
-            "members of one target group waited for each other's start and timed out (30 s, then 60 s)".into(),
+            "members of one target group waited for each other's start and timed out (20 s, then 40 s)".into(),
             json!({"first": obs, "second": obs2}),
         );
     }
@@ -158,12 +158,13 @@ pub fn check(case: &Case, w: usize) -> CheckResult {
 
 pub fn run(ctx: &mut Ctx) {
     ctx.hang_limit = std::time::Duration::from_secs(600);
+    ctx.shrink_budget = std::time::Duration::from_secs(1);
     ctx.rule = "layered configuration with one layer of n mutually independent targets (n in 2..24, and the size boundaries 31-34 and 63-66; thorough: up to 130) placed first / in the middle / last, \
 1-3 commands, tokio worker threads in {1,2,4,16}; the groups are read from `analyze --target-groups`, one group of size >= 2 is chosen and all its members run the helper in \
-barrier mode (wait until all members have started) under the 1st-3rd command. oracle: run exits 0, every member started, no barrier time-out (30 s, confirmed with 60 s). \
+barrier mode (wait until all members have started) under the 1st-3rd command. oracle: run exits 0, every member started, no barrier time-out (20 s, confirmed with 40 s). \
 non-trivial = group size >= 3; distinct by SHA-256"
         .to_string();
-    ctx.assumptions = vec!["'forever' is approximated by 30 s + 60 s for a rendezvous that takes milliseconds".into()];
+    ctx.assumptions = vec!["'forever' is approximated by 20 s + 40 s for a rendezvous that takes milliseconds".into()];
     let n = ctx.n(150, 2000);
     let max_n = if ctx.thorough() { 130 } else { 24 };
     ctx.drive("run", || strategy(max_n), n, check);
